@@ -53,7 +53,7 @@ SAFE_BUILTINS: Dict[str, Callable] = {
     "len": len, "range": range, "list": list, "tuple": tuple, "dict": dict, "set": set, "zip": zip, "map": map, "filter": filter,
     "enumerate": enumerate, "sorted": sorted, "reversed": reversed, "min": min, "max": max, "sum": sum, "abs": abs, "any": any, "all": all,
     "str": str, "int": int, "float": float, "bool": bool, "isinstance": isinstance, "type": type, "repr": repr, "round": round,
-    "OrderedDict": dict, "complex": complex, "iter": iter, "next": next, "issubclass": issubclass, "hasattr": hasattr, "getattr": getattr,
+    "OrderedDict": dict, "complex": complex, "iter": iter, "next": lambda it, *d: _next(it, *d), "issubclass": issubclass, "hasattr": hasattr, "getattr": getattr,
     "frozenset": frozenset, "divmod": divmod, "pow": pow, "print": (lambda *a, **k: None),
 }
 EXC_NAMES = {"ValueError", "TypeError", "KeyError", "IndexError", "NotImplementedError", "RuntimeError", "AssertionError", "Exception",
@@ -476,6 +476,8 @@ class Mini:
                 raise InterpRaise("ZeroDivisionError", str(ex), e)
             except AttributeError as ex:
                 raise InterpRaise("AttributeError", str(ex), e)
+            except StopIteration as ex:
+                raise InterpRaise("StopIteration", str(ex), e)
         if isinstance(e, (ast.List, ast.Tuple, ast.Set)):
             out: List[Any] = []
             for x in e.elts:
@@ -514,6 +516,8 @@ class Mini:
                 return dict(res)
             if isinstance(e, ast.SetComp):
                 return set(res)
+            if isinstance(e, ast.GeneratorExp):
+                return _GenList(res)
             return res
         if isinstance(e, ast.JoinedStr):
             parts = []
@@ -600,6 +604,20 @@ class _Super:
             raise AttributeError(name)
         interp = object.__getattribute__(self._obj, "_mi_interp")
         return lambda *a, **k: interp.call_bound(fn, self._obj, a, k, level=lvl)
+
+
+class _GenList(list):
+    """The items of a generator expression (evaluated eagerly); next() consumes from the front."""
+
+
+def _next(it, *default):
+    if isinstance(it, _GenList):
+        if it:
+            return it.pop(0)
+        if default:
+            return default[0]
+        raise StopIteration
+    return next(it, *default)
 
 
 class _Unbound:
